@@ -778,12 +778,12 @@ static void InitFields(void) {
     AddReg("CLASSR", 0x68f, SingleOp, NoneOp, NoneOp, True, False, False);
     AddReg("CLASSRL", 0x69f, DoubleOp, NoneOp, NoneOp, True, False, False);
     AddReg("CLRBIT", 0x58c, IntOp, IntOp, IntOp, True, True, False);
-    AddReg("CMPDECI", 0x5a7, IntOp, IntOp, IntOp, True, False, False);
-    AddReg("CMPDECO", 0x5a6, IntOp, IntOp, IntOp, True, False, False);
+    AddReg("CMPDECI", 0x5a7, IntOp, IntOp, IntOp, True, True, False);
+    AddReg("CMPDECO", 0x5a6, IntOp, IntOp, IntOp, True, True, False);
     AddReg("CMPI", 0x5a1, IntOp, IntOp, NoneOp, True, True, False);
     AddReg("CMPO", 0x5a0, IntOp, IntOp, NoneOp, True, True, False);
-    AddReg("CMPINCI", 0x5a5, IntOp, IntOp, IntOp, True, False, False);
-    AddReg("CMPINCO", 0x5a4, IntOp, IntOp, IntOp, True, False, False);
+    AddReg("CMPINCI", 0x5a5, IntOp, IntOp, IntOp, True, True, False);
+    AddReg("CMPINCO", 0x5a4, IntOp, IntOp, IntOp, True, True, False);
     AddReg("CMPOR", 0x684, SingleOp, SingleOp, NoneOp, True, True, False);
     AddReg("CMPORL", 0x694, DoubleOp, DoubleOp, NoneOp, True, True, False);
     AddReg("CMPR", 0x685, SingleOp, SingleOp, NoneOp, True, True, False);
